@@ -4,6 +4,7 @@ CONSTANTS
   Perms <- MCPerms
   CacheByName = TRUE
   UnsortedSets = FALSE
+  PinEncoder = FALSE
   MaxSteps = 5
 INVARIANT Deterministic
 CHECK_DEADLOCK FALSE
